@@ -16,15 +16,16 @@ impl TruthTable<String> {
     pub fn from_csv_file(
         path: impl AsRef<Path>,
     ) -> Result<TruthTable<String>, TruthTableFromCsvError> {
-        let file_row_count = BufReader::new(File::open(&path)?).lines().count();
-        if file_row_count == 0 {
+        let mut file = BufReader::new(File::open(path)?);
+        // the same test as in `from_csv_string`: only the empty text is the empty table
+        if file.fill_buf()?.is_empty() {
             return Ok(TruthTable {
                 inputs: vec![],
                 outputs: vec![],
             });
         }
 
-        Self::from_csv_common(file_row_count, Box::new(File::open(path)?))
+        Self::from_csv_common(0, Box::new(file))
     }
 
     pub fn from_csv_string(input: &str) -> Result<TruthTable<String>, TruthTableFromCsvError> {
@@ -35,13 +36,14 @@ impl TruthTable<String> {
             });
         }
 
-        let file_row_count = input.trim().split('\n').count();
-
-        Self::from_csv_common(file_row_count, Box::new(io::Cursor::new(input.to_string())))
+        Self::from_csv_common(0, Box::new(io::Cursor::new(input.to_string())))
     }
 
+    /// `_file_row_count` is not used any more: the records are counted while they are read,
+    /// because lines of the text and records of the CSV are different things (blank lines,
+    /// quoted line breaks, `\r` terminators).
     fn from_csv_common(
-        file_row_count: usize,
+        _file_row_count: usize,
         read: Box<dyn Read>,
     ) -> Result<TruthTable<String>, TruthTableFromCsvError> {
         let mut reader = ReaderBuilder::new()
@@ -54,12 +56,34 @@ impl TruthTable<String> {
             return Err(TruthTableFromCsvError::UnexpectedEof);
         }
 
-        let (variable_column_index_map, expected_variable_count) =
-            determine_variables(file_row_count, &mut maybe_header_record)?;
+        let (variable_column_index_map, expected_variable_count, first_record_is_header) =
+            determine_variables(&maybe_header_record)?;
 
-        let mut outputs = vec![false; 2_usize.pow(variable_column_index_map.len() as u32)];
+        let variable_count = variable_column_index_map.len();
+        let variables = variable_column_index_map
+            .keys()
+            .cloned()
+            .collect::<Vec<_>>();
+        // `None` if the row count of the table does not fit `usize`; no text has that many records
+        let expected_record_count = u32::try_from(variable_count)
+            .ok()
+            .and_then(|exponent| 2_usize.checked_pow(exponent));
 
-        for (csv_row_index, result) in reader.records().enumerate() {
+        // a headerless text starts with a data record
+        let first_data_record = if first_record_is_header {
+            None
+        } else {
+            Some(Ok(maybe_header_record))
+        };
+
+        let mut record_count = 0usize;
+        let mut outputs_by_row_index = BTreeMap::new();
+
+        for (csv_row_index, result) in first_data_record
+            .into_iter()
+            .chain(reader.records())
+            .enumerate()
+        {
             let record = result?;
 
             let valuation = parse_input_columns(
@@ -68,59 +92,55 @@ impl TruthTable<String> {
                 &variable_column_index_map,
                 csv_row_index,
             )?;
+            let output = parse_output_column(&record)?;
 
-            let index = values_to_row_index(
-                &variable_column_index_map
-                    .keys()
-                    .cloned()
-                    .collect::<Vec<_>>(),
-                &valuation,
-            );
-
-            // access safe due to ensure_record_count check above
-            outputs[index] = parse_output_column(&record)?;
+            record_count += 1;
+            if expected_record_count.is_some() {
+                outputs_by_row_index.insert(values_to_row_index(&variables, &valuation), output);
+            }
         }
 
+        ensure_record_count(record_count, variable_count, expected_record_count)?;
+        // the number of records is right, so a repeated row means that another row is missing
+        ensure_record_count(
+            outputs_by_row_index.len(),
+            variable_count,
+            expected_record_count,
+        )?;
+
         Ok(TruthTable::new(
-            variable_column_index_map.into_keys().collect(),
-            outputs,
+            variables,
+            outputs_by_row_index.into_values().collect(),
         ))
     }
 }
 
+/// Returns the column index of every variable, the expected number of cells of a record
+/// and whether the first record is a header (as opposed to the first data record).
 fn determine_variables(
-    file_row_count: usize,
-    maybe_header_record: &mut StringRecord,
-) -> Result<(BTreeMap<String, usize>, usize), TruthTableFromCsvError> {
-    let (variable_column_index_map, expected_variable_count) = if is_header(maybe_header_record)? {
+    maybe_header_record: &StringRecord,
+) -> Result<(BTreeMap<String, usize>, usize, bool), TruthTableFromCsvError> {
+    if is_header(maybe_header_record)? {
         let mapping = inputs_from_header(maybe_header_record)?;
 
-        // - 1 is because row_count = 1 header_row + record_rows
-        ensure_record_count(file_row_count - 1, &mapping)?;
-
-        (mapping, maybe_header_record.len())
+        Ok((mapping, maybe_header_record.len(), true))
     } else {
         let mapping = inputs_from_first_record(maybe_header_record);
 
-        ensure_record_count(file_row_count, &mapping)?;
-
         let expected = mapping.keys().count();
-        (mapping, expected)
-    };
-
-    Ok((variable_column_index_map, expected_variable_count))
+        Ok((mapping, expected, false))
+    }
 }
 
 fn ensure_record_count(
     actual_record_count: usize,
-    variable_column_index_map: &BTreeMap<String, usize>,
+    variable_count: usize,
+    expected_record_count: Option<usize>,
 ) -> Result<(), TruthTableFromCsvError> {
-    let expected_record_count = 2_usize.pow(variable_column_index_map.len() as u32);
-
-    if actual_record_count != expected_record_count {
+    if Some(actual_record_count) != expected_record_count {
         return Err(
             TruthTableFromCsvError::MismatchedRecordCountAndVariableCount {
-                variable_count: variable_column_index_map.len(),
+                variable_count,
                 actual_row_count: actual_record_count,
             },
         );
